@@ -406,7 +406,7 @@ def jobs_for(prop, tier):
     if prop == 'C11':
         return jobs_simplify(tier)
     if prop == 'C07':
-        return [j for j in jobs_option_below(tier) if j[1][3] == 'combinations']
+        return [j for j in jobs_option_below(tier) if j[1][3] == 'combinations'] + jobs_combinations(tier)
     return {'C01': jobs_c01, 'C02': jobs_c02, 'C03': jobs_c03, 'C04': jobs_c04, 'C06': jobs_c06, 'C08': jobs_c08, 'C10': jobs_c10, 'C05': jobs_c05, 'C09': jobs_c09}.get(prop, lambda t: [])(tier)
 
 
@@ -1805,4 +1805,56 @@ def jobs_flatten(tier):
             for mode in ('at', 'inner', 'deep'):
                 for off0 in ((0, 1) if mode == 'inner' and cls != 'RegularArray' else (0,)):
                     js.append((h_list_flatten, (cls, d, mode, off0), 600))
+    return js
+
+
+# ------------------------------------------------------------------------------------------------ C07: combinations at the list level
+@guard
+def h_combinations(cls, dims, n, replacement):
+    """combinations(n, replacement) at the axis of this list node: per list exactly the itertools tuples, in order, as records of n fields"""
+    import itertools as it
+    lens0 = node_lens(cls, dims)
+    comb = it.combinations_with_replacement if replacement else it.combinations
+    ntup = sum(len(list(comb(range(L), n))) for L in lens0)
+    nc = NodeCtx(['LOA', 'LA', 'RA', 'REC', 'IA', 'IDX', 'CNT', 'UTL', 'KD', 'IDS'], [], unwind=max(12, 2 * ntup + 2 * sum(lens0) + 3 * len(lens0) + 4 * n + 12))
+    this, lists, starts, offs, short = list_node(nc, cls, dims)
+    rl = nc.m.record('recordlookup', {0: (NULL, 8), 8: (NULL, 8)}, const=True)
+    pc_ = {}
+    nc.empty_map(pc_, 0, 'noparams')
+    pm = nc.m.record('noparams', pc_, const=True)
+    nc.m.record('ret', {})
+    cands = [f for mod_ in nc.m.eng.mods for f in mod_.func_src if f.startswith('_ZNK7awkward%s12combinationsElb' % short)]
+    if not cands:
+        raise Unsupported('combinations of %s not found in the IR' % cls)
+    out = nc.m.call(cands[0], [Ptr('ret', 0), this, BV(n), z3.BitVecVal(1 if replacement else 0, 1), rl, pm, BV(1), BV(0)])
+    obls = [('combinations does not raise', out.raised)]
+    want = [[list(t) for t in comb(lst, n)] for lst in lists]
+    rcell = nc.m.cell('ret', 0)
+    for g, res in (nodeh.decode_cases(nc, out.mem, rcell) if rcell is not None else []):
+        if res is None:
+            obls.append(('a result is returned', z3.And(g, z3.Not(out.raised))))
+        else:
+            obls += [(nm, z3.And(g, z3.Not(out.raised), c)) for nm, c in compare(value(res), want)]
+
+    def replay(model, ent):
+        lc = model.eval(nc.lencontent, model_completion=True).as_signed_long()
+        if lc > 100:
+            return False, 'content too long to replay', {}
+        head, inp = node_program(nc, model, lc)
+        exp = [[{str(k): v for k, v in enumerate(t)} for t in comb(lst, n)] for lst in inp]
+        return akrun_check(head + 'combinations %d %d 1' % (n, 1 if replacement else 0), exp, '%s %s::combinations(%d, replacement=%s)' % (cls, inp, n, replacement))
+    return mdischarge(nc.m, '%s::combinations shape=%s n=%d replacement=%s' % (cls, ','.join(map(str, dims)), n, replacement), obls, [], replay=replay,
+                      prefer=[nc.lencontent <= 24] + [o <= 20 for o in offs],
+                      extra=dict(bounds='shape %s, n=%d concrete (case split); origins symbolic' % (dims, n)))
+
+
+def jobs_combinations(tier):
+    js = []
+    shapes = [(3, 0, 2), (1,)] if tier == 'quick' else [l for k in (1, 2) for l in itertools.product(range(4), repeat=k)]
+    regs = [(3, 2), (0, 2), (1, 1)] if tier == 'quick' else [(s_, l_) for s_ in range(4) for l_ in range(3)]
+    for cls in ('ListOffsetArray64', 'ListArray64', 'RegularArray'):
+        for d in (regs if cls == 'RegularArray' else shapes):
+            for n in ((2, 3) if tier == 'quick' else (1, 2, 3)):
+                for rep in (False, True):
+                    js.append((h_combinations, (cls, d, n, rep), 600))
     return js
